@@ -580,3 +580,120 @@ Section Env.
   Qed.
 
 End Env.
+
+(* ======================================================================== *)
+(* 7. F04: the pinned receive loop violates the property -- witnesses        *)
+(* ======================================================================== *)
+
+(* A concrete codec for the witnesses: one registered type whose id is sixteen
+   bytes 0x01, values = byte strings, encoding = identity. It satisfies the
+   hypotheses of every theorem above (hypotheses_satisfiable). *)
+Module Witness.
+  Definition id0 : bytes := repeat x01 16.
+  Definition w_type_of (_ : bytes) : unit := tt.
+  Definition w_tid_of (_ : unit) : bytes := id0.
+  Definition w_registry (id : bytes) : option unit := if bytes_eqb id id0 then Some tt else None.
+  Definition w_enc (v : bytes) : option bytes := Some v.
+  Definition w_dec (_ : unit) (b : bytes) : option bytes := Some b.
+
+  Definition w_marshal := marshal w_type_of w_tid_of w_registry w_enc.
+  Definition w_handle := handle_all w_registry w_dec.
+  Definition w_expected (limit : N) (ps : list bytes) :=
+    local_handle w_registry w_dec (filter (fitsb limit) ps).
+
+  Definition limit : N := 32.
+  Definition m (b : byte) : bytes := id0 ++ [b].                (* a 17-byte message buffer *)
+  Definition zeros4 (k : nat) : bytes := repeat x00 (4 * k).
+
+  (* swallow: the refused body ends in the size 21 = one whole 17-byte frame *)
+  Definition big_swallow : bytes := id0 ++ zeros4 9 ++ [x00; x00; x00; x15].
+  Definition ps_swallow : list bytes := [m x41; big_swallow; m x43; m x44; m x45].
+
+  (* smuggle: the refused body carries a complete frame of a message nobody sent *)
+  Definition big_smuggle : bytes := id0 ++ zeros4 3 ++ send_raw (m x58).
+  Definition ps_smuggle : list bytes := [m x41; big_smuggle; m x43].
+End Witness.
+
+Import Witness.
+
+Example hypotheses_satisfiable :
+  tid_16 unit w_tid_of /\ codec_roundtrip bytes unit w_type_of w_enc w_dec /\
+  (forall v, registered bytes unit w_type_of w_tid_of w_registry v) /\
+  limit < 4294967296 /\
+  Forall2 (fun v p => w_marshal v = Some p) [[x41]; [x43]] [m x41; m x43] /\
+  Forall (fits limit) [m x41; m x43] /\
+  limit < lenN big_swallow /\ lenN big_swallow < 4294967296.
+Proof.
+  split; [intros t; reflexivity|].
+  split; [intros v b [= <-]; reflexivity|].
+  split; [intros v; reflexivity|].
+  split; [reflexivity|].
+  split; [repeat constructor|].
+  split; [repeat constructor; vm_compute; congruence|].
+  split; reflexivity.
+Qed.
+
+(* five legitimate messages, the second over the limit, every Send succeeds:
+   the pinned loop delivers 1, 4, 5 -- message 3 is swallowed -- and keeps the
+   connection *)
+Theorem desync_refuted :
+  exists (limit : N) (ps : list bytes),
+    limit < 4294967296 /\ Forall (fun p => lenN p < 4294967296) ps /\
+    (forall p, In p ps -> exists v, w_marshal v = Some p) /\
+    w_handle false limit [stream ps] =
+      ([(id0, [x41]); (id0, [x44]); (id0, [x45])], FinEnd false) /\
+    w_expected limit ps = [(id0, [x41]); (id0, [x43]); (id0, [x44]); (id0, [x45])] /\
+    ~ wire_ok (w_expected limit ps) (fst (w_handle false limit [stream ps]))
+              (snd (w_handle false limit [stream ps])).
+Proof.
+  exists limit, ps_swallow. split; [vm_compute; reflexivity|]. split.
+  { repeat constructor; vm_compute; reflexivity. }
+  split.
+  { intros p Hp. exists (dropN 16 p).
+    cbn [In ps_swallow] in Hp. destruct Hp as [<-|[<-|[<-|[<-|[<-|[]]]]]]; vm_compute; reflexivity. }
+  split; [vm_compute; reflexivity|]. split; [vm_compute; reflexivity|].
+  assert (w_handle false limit [stream ps_swallow] =
+          ([(id0, [x41]); (id0, [x44]); (id0, [x45])], FinEnd false)) as -> by (vm_compute; reflexivity).
+  assert (w_expected limit ps_swallow =
+          [(id0, [x41]); (id0, [x43]); (id0, [x44]); (id0, [x45])]) as -> by (vm_compute; reflexivity).
+  cbn [fst snd]. intros [H|[H _]]; discriminate H.
+Qed.
+
+(* ... and it dispatches a message that was never sent *)
+Theorem smuggle_refuted :
+  exists (limit : N) (ps : list bytes) (stranger : bytes * bytes),
+    limit < 4294967296 /\ Forall (fun p => lenN p < 4294967296) ps /\
+    (forall p, In p ps -> exists v, w_marshal v = Some p) /\
+    In stranger (fst (w_handle false limit [stream ps])) /\
+    ~ In stranger (local_handle w_registry w_dec ps) /\
+    snd (w_handle false limit [stream ps]) <> FinClosed /\
+    ~ wire_ok (w_expected limit ps) (fst (w_handle false limit [stream ps]))
+              (snd (w_handle false limit [stream ps])).
+Proof.
+  exists limit, ps_smuggle, (id0, [x58]). split; [vm_compute; reflexivity|]. split.
+  { repeat constructor; vm_compute; reflexivity. }
+  split.
+  { intros p Hp. exists (dropN 16 p).
+    cbn [In ps_smuggle] in Hp. destruct Hp as [<-|[<-|[<-|[]]]]; vm_compute; reflexivity. }
+  assert (w_handle false limit [stream ps_smuggle] =
+          ([(id0, [x41]); (id0, [x58]); (id0, [x43])], FinEnd false)) as -> by (vm_compute; reflexivity).
+  assert (w_expected limit ps_smuggle = [(id0, [x41]); (id0, [x43])]) as -> by (vm_compute; reflexivity).
+  cbn [fst snd]. split; [right; left; reflexivity|]. split.
+  { assert (local_handle w_registry w_dec ps_smuggle =
+            [(id0, [x41]); (id0, dropN 16 big_smuggle); (id0, [x43])]) as -> by (vm_compute; reflexivity).
+    intros [H|[H|[H|[]]]]; vm_compute in H; discriminate H. }
+  split; [discriminate|]. intros [H|[H _]]; discriminate H.
+Qed.
+
+(* the same two histories with the fix: nothing behind the refused frame is
+   parsed, the connection is dropped (instances of wire_ok_fixed) *)
+Example witnesses_fixed :
+  w_handle true limit [stream ps_swallow] = ([(id0, [x41])], FinClosed) /\
+  w_handle true limit [stream ps_smuggle] = ([(id0, [x41])], FinClosed).
+Proof. split; vm_compute; reflexivity. Qed.
+
+Theorem receive_total (V T : Type) (registry : bytes -> option T) (dec : T -> bytes -> option V)
+        fix_f04 limit segs :
+  snd (recv_all fix_f04 limit segs) <> FinFuel /\
+  snd (handle_all registry dec fix_f04 limit segs) <> FinFuel.
+Proof. split; [apply recv_all_fuel|apply handle_all_fuel]. Qed.
